@@ -208,4 +208,18 @@ def algorithmFitsKeyT (table : List (String × String)) (alg kind : String) : Bo
   | some p => alg == p.2
   | none => if kind == "Ed25519" then alg == "EdDSA" else true
 
+/-! ## vcr/revocation/types.go StatusList2021Entry.Validate (was the measured input `Status.entryValid`) -/
+
+/-- `json.Unmarshal(credentialStatus.Raw(), &cs)` succeeded (`unmarshals`; encoding/json is a contract) and `cs.Validate()` passes:
+    the id is not the list's URL, the type is StatusList2021Entry, a purpose is given, statusListIndex is a non-negative number
+    (`Status.index` = strconv.Atoi), statusListCredential parses as a request URI (`urlOK`; net/url is a contract) -/
+def entryValidOf (unmarshals urlOK : Bool) (s : Status) : Bool :=
+  if !unmarshals then false
+  else if s.id == s.listCred then false
+  else if s.typ != statusListEntryType then false
+  else if s.purpose == "" then false
+  else if s.index.isNone then false
+  else if !urlOK then false
+  else true
+
 end Nuts.C01
